@@ -179,7 +179,8 @@ Section Serialize.
     | GSel (SName k) => Ok (91%N :: canonical_string k ++ [93%N])          (* shorthand = True *)
     | GSel SWild => Ok [91; 42; 93]%N
     | GSel SKeys => Ok (91%N :: e_keys E ++ [93%N])
-    | GSel s => sel_text s                                                  (* a bare slice *)
+    | GSel ((SSlice _ _ _) as s) => x <- sel_text s ;; Ok (91%N :: x ++ [93%N])   (* JSONPath.__str__ brackets a bare slice *)
+    | GSel s => sel_text s                                                  (* never built by the parser *)
     | GDescent => Ok [46; 46]%N
     | GList items => xs <- sels_text items ;; Ok (91%N :: join_sep [44; 32]%N xs ++ [93%N])
     end
